@@ -288,19 +288,19 @@ def run_jobs(jobs, nproc=None, job_timeout=600, per_process=1):
     # many tiny jobs: fixed batches of consecutive jobs per process (the composition of a batch does not depend on scheduling)
     per_process = max(1, int(per_process))
     batches = [payloads[i : i + per_process] for i in range(0, len(payloads), per_process)]
-    pending = list(reversed(batches))
+    pending = [(b, 0) for b in reversed(batches)]
     running = {}
     nproc = min(nproc, len(batches))
     while pending or running:
         while pending and len(running) < nproc:
-            pl = pending.pop()
+            pl, attempt = pending.pop()
             r, w = ctx.Pipe(duplex=False)
             pr = ctx.Process(target=child, args=(w, pl), daemon=True)
             pr.start()
             w.close()
-            running[r] = (pr, pl, set())
+            running[r] = (pr, pl, set(), time.time(), attempt)
         for r in _wait(list(running), timeout=1.0):
-            pr, pl, got = running[r]
+            pr, pl, got, t_start, attempt = running[r]
             try:
                 res = r.recv()
                 got.add(res[0])
@@ -314,6 +314,27 @@ def run_jobs(jobs, nproc=None, job_timeout=600, per_process=1):
             for payload in pl:
                 if payload[2] not in got:
                     yield (payload[2], [rec(payload[2], "error", 0.0, detail="worker process died without a result")], {}, {})
+        # hard limit: a solver call that ignores both its own timeout and the interrupt (seen inside z3's nonlinear
+        # monomial patching) cannot be stopped from inside the process; the process is killed, its unfinished jobs are
+        # re-run once in fresh processes and reported as undecided if that happens again
+        now = time.time()
+        for r in list(running):
+            pr, pl, got, t_start, attempt = running[r]
+            if now - t_start > job_timeout * len(pl) + 90:
+                try:
+                    pr.kill()
+                except Exception:
+                    pass
+                running.pop(r)
+                r.close()
+                pr.join(timeout=5)
+                for payload in pl:
+                    if payload[2] in got:
+                        continue
+                    if attempt == 0:
+                        pending.append(([payload], 1))
+                    else:
+                        yield (payload[2], [rec(payload[2], "unknown", now - t_start, detail=f"job killed after {int(now - t_start)}s (solver call did not return); re-run once, killed again")], {}, {})
 
 
 # --------------------------------------------------------------------------
